@@ -488,6 +488,22 @@ def rule_G3(ck):
 
 
 # ---------------------------------------------------------------------------------------- G10
+    # a reported type mismatch ends the handling of that value: `if not isinstance(x, T): report ...` must leave (return / raise /
+    # continue / break), otherwise the code below goes on to use x as a T (AttributeError: internal error)
+    for q, fn in repo.all_functions():
+        if isinstance(fn, ast.Lambda) or q.split("::")[0] in ("devices", "_cli", "deferred"):
+            continue
+        for node in walk_local(fn):
+            if isinstance(node, ast.If) and isinstance(node.test, ast.UnaryOp) and isinstance(node.test.op, ast.Not) and isinstance(node.test.operand, ast.Call) \
+                    and norm_text(node.test.operand.func) == "isinstance" and guards.body_reports(node.body):
+                last = node.body[-1]
+                leaves = always_leaves(node.body) or isinstance(last, (ast.Continue, ast.Break))
+                ck.instance(("type-guard", q, norm_text(node.test)), {"function": q, "guard": norm_text(node.test), "leaves": leaves}, fn=q)
+                if not leaves and not node.orelse:
+                    x = norm_text(node.test.operand.args[0])
+                    ck.violation(node, f"'{norm_text(node.test)}' reports the mismatch but does not leave: the statements below go on to use {x} as the type it is not (AttributeError, an internal error after the diagnostic)",
+                                 construct=f"type guard without exit in {public_qual(q).split('::')[1]}")
+
 def constructed_classes(repo, funcs):
     out = set()
     for q in funcs:
